@@ -84,8 +84,10 @@ theorem abort_erases_store_fresh (cat : Catalog) (ops : List Op) (tid : Nat) (t 
     exact hnc h2
 
 /-- the general history-level statement: the operations of ONE transaction that does not commit (from its `begin`
-    to its rollback / drop / refused commit, or to the end of the history) replaced by `nop` give every other
-    operation the same output.  Proved below for a session none of whose transactions commits. -/
+    to its rollback / drop) replaced by `nop` give every other operation the same output, also those of later —
+    possibly committing — transactions of the same session.  Proved below (`abort_erases`); `abort_erases_refused`
+    extends it to a transaction whose commit is REFUSED, `failed_statement_erases` to a single failing statement of a
+    transaction that goes on. -/
 def abort_erases_statement : Prop :=
   ∀ (cat : Catalog) (pre seg post : List Op) (s : String),
     lookup s (finalM Defects.none (State.init cat) pre).sessions = none →
@@ -94,6 +96,61 @@ def abort_erases_statement : Prop :=
     (run Defects.none cat (pre ++ eraseSess s seg ++ post)).2 =
       (run Defects.none cat pre).2 ++ maskOuts s seg ((run Defects.none cat (pre ++ seg)).2.drop pre.length) ++
         ((run Defects.none cat (pre ++ seg ++ post)).2.drop (pre.length + seg.length))
+
+theorem drop_outs_left (l : List Op) (α : Spec.State) (r : List Out) : (Spec.outs α l ++ r).drop l.length = r := by
+  have := List.drop_left (l₁ := Spec.outs α l) (l₂ := r)
+  rwa [Spec.outs_length] at this
+
+/-- **Abort erases (history level, one transaction).**  `seg` runs from a point where session `s` has no transaction
+    to a point where it has none again and contains no commit of `s` (its transactions there ended in ROLLBACK, a
+    session drop, or were replaced by the next `begin`): the history with the operations of `s` inside `seg` replaced by
+    `nop` answers every other operation — before, inside and AFTER `seg`, including later committing transactions of `s`
+    itself — exactly as the full history does. -/
+theorem abort_erases : abort_erases_statement := by
+  intro cat pre seg post s hpre hnc hseg
+  have hp : lookup s (Spec.final (Spec.State.init cat) pre).sessions = none := (reach_rel cat pre).sessNone s hpre
+  have hs : lookup s (Spec.final (Spec.State.init cat) (pre ++ seg)).sessions = none :=
+    (reach_rel cat (pre ++ seg)).sessNone s hseg
+  rw [Spec.final_append] at hs
+  obtain ⟨e1, e2⟩ := spec_erase_from s seg (Spec.final (Spec.State.init cat) pre) hnc
+  rw [dropSess_absent s _ hp] at e1 e2
+  rw [dropSess_absent s _ hs] at e1
+  rw [refine_run, refine_run, refine_run, refine_run, spec_run_outs, spec_run_outs, spec_run_outs, spec_run_outs]
+  rw [Spec.outs_append, Spec.outs_append, Spec.final_append, e1, e2]
+  rw [Spec.outs_append pre seg, drop_outs_left]
+  rw [Spec.outs_append (pre ++ seg) post, Spec.outs_append pre seg, Spec.final_append]
+  have hlen : pre.length + seg.length = (Spec.outs (Spec.State.init cat) pre ++
+      Spec.outs (Spec.final (Spec.State.init cat) pre) seg).length := by
+    simp [Spec.outs_length]
+  rw [hlen, List.drop_left]
+
+/-- **Abort erases, refused commits included.**  As `abort_erases`, but `seg` may contain commits of `s` as long as none
+    of them was answered with `ok`: a transaction whose COMMIT is refused (write-write conflict, or the constraint
+    re-check) is erased like one that rolls back — every other operation of the history, before, inside and after
+    `seg`, answers the same when the operations of `s` in `seg` (the refused `commit` included) are replaced by `nop`. -/
+theorem abort_erases_refused (cat : Catalog) (pre seg post : List Op) (s : String)
+    (hpre : lookup s (finalM Defects.none (State.init cat) pre).sessions = none)
+    (hnc : noCommitOk s seg ((run Defects.none cat (pre ++ seg)).2.drop pre.length) = true)
+    (hseg : lookup s (finalM Defects.none (State.init cat) (pre ++ seg)).sessions = none) :
+    (run Defects.none cat (pre ++ eraseSess s seg ++ post)).2 =
+      (run Defects.none cat pre).2 ++ maskOuts s seg ((run Defects.none cat (pre ++ seg)).2.drop pre.length) ++
+        ((run Defects.none cat (pre ++ seg ++ post)).2.drop (pre.length + seg.length)) := by
+  have hp : lookup s (Spec.final (Spec.State.init cat) pre).sessions = none := (reach_rel cat pre).sessNone s hpre
+  have hs : lookup s (Spec.final (Spec.State.init cat) (pre ++ seg)).sessions = none :=
+    (reach_rel cat (pre ++ seg)).sessNone s hseg
+  rw [Spec.final_append] at hs
+  rw [refine_run, spec_run_outs, Spec.outs_append, drop_outs_left] at hnc
+  obtain ⟨e1, e2⟩ := spec_erase_from' s seg (Spec.final (Spec.State.init cat) pre) hnc
+  rw [dropSess_absent s _ hp] at e1 e2
+  rw [dropSess_absent s _ hs] at e1
+  rw [refine_run, refine_run, refine_run, refine_run, spec_run_outs, spec_run_outs, spec_run_outs, spec_run_outs]
+  rw [Spec.outs_append, Spec.outs_append, Spec.final_append, e1, e2]
+  rw [Spec.outs_append pre seg, drop_outs_left]
+  rw [Spec.outs_append (pre ++ seg) post, Spec.outs_append pre seg, Spec.final_append]
+  have hlen : pre.length + seg.length = (Spec.outs (Spec.State.init cat) pre ++
+      Spec.outs (Spec.final (Spec.State.init cat) pre) seg).length := by
+    simp [Spec.outs_length]
+  rw [hlen, List.drop_left]
 
 /-- **Abort erases (history level).**  If session `s` never commits (each of its transactions ends in ROLLBACK, a
     session drop, is implicitly rolled back by the next `begin`, or stays open), the history with all of its operations
@@ -173,6 +230,101 @@ theorem spec_failed_batch_is_nop (α : Spec.State) (sts : List Stmt) (e : Err)
     cases hr : (α.commitC a').2 with
     | none => rw [hr] at h; cases h
     | some e' => rw [spec_refused_commit_keeps_state α a' e' hr]
+
+theorem spec_failed_eqSess (α : Spec.State) (op : Op) (hf : (Spec.step α op).2.failed = true) :
+    EqSess (Spec.step α op).1 (Spec.step α .nop).1 := by
+  cases op with
+  | exec s st =>
+    cases ho : (Spec.step α (.exec s st)).2 with
+    | stmt o =>
+      cases o with
+      | err e => exact spec_failed_exec_eqSess α s st e ho
+      | okN n => rw [ho] at hf; simp [Out.failed] at hf
+      | rows rs => rw [ho] at hf; simp [Out.failed] at hf
+    | ok => rw [ho] at hf; simp [Out.failed] at hf
+    | refused e => rw [ho] at hf; simp [Out.failed] at hf
+    | noSession => rw [ho] at hf; simp [Out.failed] at hf
+    | batch os => rw [ho] at hf; simp [Out.failed] at hf
+    | batchErr e =>
+      exfalso
+      unfold Spec.step at ho; simp only [Spec.stepCore] at ho
+      split at ho <;> simp at ho
+    | none => rw [ho] at hf; simp [Out.failed] at hf
+  | auto st =>
+    cases ho : (Spec.step α (.auto st)).2 with
+    | stmt o =>
+      cases o with
+      | err e => rw [spec_failed_auto_is_nop α st e ho]; exact EqSess.refl _
+      | okN n => rw [ho] at hf; simp [Out.failed] at hf
+      | rows rs => rw [ho] at hf; simp [Out.failed] at hf
+    | ok => rw [ho] at hf; simp [Out.failed] at hf
+    | refused e => rw [ho] at hf; simp [Out.failed] at hf
+    | noSession => rw [ho] at hf; simp [Out.failed] at hf
+    | batch os => rw [ho] at hf; simp [Out.failed] at hf
+    | batchErr e =>
+      exfalso
+      unfold Spec.step at ho; simp only [Spec.stepCore] at ho
+      split at ho
+      · simp at ho
+      · simp only [outOfCommit] at ho
+        split at ho <;> simp at ho
+    | none => rw [ho] at hf; simp [Out.failed] at hf
+  | batch sts =>
+    cases ho : (Spec.step α (.batch sts)).2 with
+    | batchErr e => rw [spec_failed_batch_is_nop α sts e ho]; exact EqSess.refl _
+    | stmt o =>
+      exfalso
+      unfold Spec.step at ho; simp only [Spec.stepCore] at ho
+      split at ho
+      · simp at ho
+      · simp only at ho
+        split at ho <;> simp at ho
+    | ok => rw [ho] at hf; simp [Out.failed] at hf
+    | refused e => rw [ho] at hf; simp [Out.failed] at hf
+    | noSession => rw [ho] at hf; simp [Out.failed] at hf
+    | batch os => rw [ho] at hf; simp [Out.failed] at hf
+    | none => rw [ho] at hf; simp [Out.failed] at hf
+  | begin s => simp [Spec.step, Spec.stepCore, Out.failed] at hf
+  | commit s =>
+    exfalso
+    unfold Spec.step at hf; simp only [Spec.stepCore] at hf
+    split at hf
+    · simp [Out.failed] at hf
+    · simp only [outOfCommit] at hf
+      split at hf <;> simp [Out.failed] at hf
+  | rollback s =>
+    exfalso
+    unfold Spec.step at hf; simp only [Spec.stepCore] at hf
+    split at hf <;> simp [Out.failed] at hf
+  | drop s =>
+    exfalso
+    unfold Spec.step at hf; simp only [Spec.stepCore] at hf
+    split at hf <;> simp [Out.failed] at hf
+  | tick => simp [Spec.step, Spec.stepCore, Out.failed] at hf
+  | nop => simp [Spec.step, Spec.stepCore, Out.failed] at hf
+
+/-- **A failed statement erases (history level).**  An operation answered with an error — a statement failing inside a
+    session whose transaction goes on and may commit, a failing autocommit statement, a failing batch — can be
+    replaced by `nop`: every other operation of the history, before and after it, answers the same. -/
+theorem failed_statement_erases (cat : Catalog) (pre post : List Op) (op : Op)
+    (hf : ((run Defects.none cat (pre ++ [op])).2.getLast?.map Out.failed) = some true) :
+    (run Defects.none cat (pre ++ .nop :: post)).2 =
+      (run Defects.none cat pre).2 ++ Out.none :: (run Defects.none cat (pre ++ op :: post)).2.drop (pre.length + 1) := by
+  rw [refine_run, spec_run_outs, Spec.outs_append] at hf
+  simp only [Spec.outs, List.getLast?_append, List.getLast?_singleton, Option.or_some, Option.map_some,
+    Option.some.injEq, List.getLast?_nil, Option.some_or] at hf
+  have hq := spec_failed_eqSess (Spec.final (Spec.State.init cat) pre) op hf
+  rw [refine_run, refine_run, refine_run, spec_run_outs, spec_run_outs, spec_run_outs]
+  rw [Spec.outs_append, Spec.outs_append]
+  simp only [Spec.outs]
+  rw [outs_eqSess post _ _ hq]
+  have hlen : pre.length + 1 = (Spec.outs (Spec.State.init cat) pre ++
+      [(Spec.step (Spec.final (Spec.State.init cat) pre) op).2]).length := by
+    simp [Spec.outs_length]
+  have happ : ∀ (a : List Out) (x : Out) (r : List Out), a ++ x :: r = (a ++ [x]) ++ r := by
+    intro a x r; simp
+  rw [happ _ (Spec.step (Spec.final (Spec.State.init cat) pre) op).2, hlen, List.drop_left]
+  rfl
 
 /-- a failing autocommit statement writes no version and no delete mark: the stored rows are untouched -/
 theorem failed_auto_writes_nothing (σ : State) (st : Stmt) (e : Err)
